@@ -640,6 +640,7 @@ TOK_EXTRA.update({
     "dollar": "$", "backtick": "`", "pct": "%", "pct-d": "%d", "u-escape": "\\ufeff", "nul-escape": "\\0",
     "zeros": "00", "1e3": "1e3", "1_0": "1_0", "sp7": " 7", "7lf": "7\n", "false-word": "False", "true-word": "true", "nan": "nan",
     "empty-word": "empty", "unknown-word": "unknown", "anonymous": "anonymous", "ack-word": "ACK", "at-cmd": "AT+",
+    "misaligned-crlf": "\u0d41\u0a00\x00", "misaligned-bom": "\uff41\u00fe", "crlf-be": "\u0d00\u0a00",
     "nul2": "\x00\x00", "nul4": "\x00" * 4, "nul16": "\x00" * 16, "ff4": "\xff" * 4, "sp8": " " * 8,
 })
 # raw octet tokens for the fields that are octets in the API (TMS text, TMS address): tokens of another
@@ -732,6 +733,12 @@ def special_tokens(ctx, rng, pairs):
                 for enc in (None, 0, 1) if len(carriers) > 1 else (None, 1):
                     tms_case(ctx, tms_text_fields(TMS_CARRIERS[ci], enc, u16(text), text, "text:" + tag), te, td, "special")
                     ctx.count("special:tms-text")
+            if len(carriers) > 1:
+                # a third, random carrier (flags, sequence number, address, constructor form) per token and placement
+                car = {"more": rng.randrange(2), "ack": rng.randrange(2), "res": rng.randrange(2), "seq": rng.choice(SEQ_EDGES),
+                       "addr": bytes(rng.randrange(256) for _ in range(rng.choice([0, 1, 4, 16]))).hex(), "ctor": rng.choice(["member", "int"])}
+                tms_case(ctx, tms_text_fields(car, rng.choice([None, 0, 1, 1]), u16(text), text, "text:" + tag), te, td, "special")
+                ctx.count("special:tms-text-random-carrier")
             ctx.count(f"special:tms-text:{where}")
             # TMS address: the token's UTF-16-LE and UTF-8 octets inside the address of each PDU type
             for j, octs in enumerate((u16(tok), u8(tok))):
@@ -754,6 +761,15 @@ def special_tokens(ctx, rng, pairs):
                     vals = {k: place(tok, ARS_BODY[k], where).encode("utf-8") for k in ks}
                     ars_case(ctx, ars_reg_fields(ARS_CARRIERS[ci], vals, f"{field}:{tag}"), ae, ad, "special")
                     ctx.count("special:ars-" + field)
+            if len(carriers) > 1:
+                more = rng.randrange(2)
+                car = {"type": rng.choice(ARS_REG), "more": more, "ack": rng.randrange(2), "prio": rng.randrange(2), "ctl": rng.randrange(2),
+                       "csbk": rng.randrange(2), "rrh": [rng.randrange(3), 0] if more else None, "ctor": rng.choice(["member", "int", "bytes"]),
+                       "others": rng.choice(["plain", "empty"])}
+                ks = rng.sample(("dev", "user", "pw"), rng.randint(1, 3))
+                vals = {k: place(tok, ARS_BODY[k], where).encode("utf-8") for k in ks}
+                ars_case(ctx, ars_reg_fields(car, vals, f"{'+'.join(sorted(ks))}:{tag}"), ae, ad, "special")
+                ctx.count("special:ars-random-carrier")
             ctx.count(f"special:ars-ident:{where}")
     # raw octet tokens in the octet-typed fields
     body = u16(TMS_BODY)
@@ -852,6 +868,62 @@ def special_lengths(ctx, rng, pairs):
             v = fill(ch, n, nb, False).encode("utf-8")
             ars_case(ctx, ars_reg_fields(ARS_CARRIERS[n & 1], {"dev": v, "user": v, "pw": v}, f"all:sum{3 * n}"), ae, ad, "special")
             ctx.count("special:ars-payload-256")
+
+
+QUICK_BLOCKS = [(0x0000, 0x0500), (0x2000, 0x2100), (0xD7F0, 0xE010), (0xFDD0, 0xFDF0), (0xFE00, 0xFE10), (0xFEF0, 0x10000)]
+
+
+def special_single_chars(ctx, rng, pairs):
+    """every single character as the FIRST and as the LAST character of a TMS text and of an ARS identifier /
+    password: thorough = every UCS-2 code unit (lone surrogates included) / every BMP scalar value plus 4096 others;
+    quick = the blocks where the special characters live (controls, Latin, combining marks, general punctuation,
+    surrogate borders, non-characters, presentation forms / BOM / specials) plus a random 1024 of the rest"""
+    te, td, ae, ad, misc = pairs
+    if ctx.thorough():
+        cps = list(range(0x10000))
+    else:
+        cps = [c for lo, hi in QUICK_BLOCKS for c in range(lo, hi)]
+        cps += [rng.randrange(0x500, 0xD7F0) for _ in range(768)] + [rng.randrange(0xE010, 0xFDD0) for _ in range(256)]
+    astral = [0x10000, 0x1FFFF, 0x20000, 0xE0001, 0xE0100, 0xF0000, 0x10FFFE, 0x10FFFF] + [rng.randrange(0x10000, 0x110000) for _ in range(ctx.budget(64, 4096))]
+    fields = ("dev", "user", "pw")
+    for i, c in enumerate(cps + astral):
+        ch = chr(c)
+        for j, text in enumerate((ch + TMS_BODY, TMS_BODY + ch)):
+            car = TMS_CARRIERS[(i + j) & 1]
+            tms_case(ctx, tms_text_fields(car, (1, 1, None, 0)[(i >> 1) & 3], u16(text), text, f"text:char{c:04x}@{'start' if j == 0 else 'end'}"), te, td, "special")
+        ctx.count("special:tms-text-single-char", 2)
+        if 0xD800 <= c <= 0xDFFF:
+            continue
+        k = fields[i % 3]
+        for j, v in enumerate((ch + ARS_BODY[k], ARS_BODY[k] + ch)):
+            ars_case(ctx, ars_reg_fields(ARS_CARRIERS[(i + j) & 1], {k: v.encode("utf-8")}, f"{k}:char{c:04x}@{'start' if j == 0 else 'end'}"), ae, ad, "special")
+        ctx.count("special:ars-single-char", 2)
+
+
+def special_factorial(ctx, pairs):
+    """thorough only: core tokens at start / alone / end under every flag combination, encoding and constructor form"""
+    te, td, ae, ad, misc = pairs
+    for name, tok in TOK_CORE.items():
+        for where in ("start", "alone", "end"):
+            text = place(tok, TMS_BODY, where)
+            for bits in range(8):
+                for addr in ("", "01"):
+                    for seq in (0, 31, 32, 127):
+                        for enc in (None, 0, 1):
+                            car = {"more": bits & 1, "ack": (bits >> 1) & 1, "res": bits >> 2, "addr": addr, "seq": seq, "ctor": "int" if seq & 1 else "member"}
+                            tms_case(ctx, tms_text_fields(car, enc, u16(text), text, f"text:{name}@{where}"), te, td, "special")
+                            ctx.count("special:tms-factorial")
+            if _has_surrogate(tok):
+                continue
+            for bits in range(32):
+                more = bits & 1
+                for ty in ARS_REG:
+                    for others in ("plain", "empty"):
+                        car = {"type": ty, "more": more, "ack": (bits >> 1) & 1, "prio": (bits >> 2) & 1, "ctl": (bits >> 3) & 1, "csbk": bits >> 4,
+                               "rrh": [bits % 3, 0] if more else None, "ctor": ("member", "int", "bytes")[bits % 3], "others": others}
+                        for k in ("dev", "user", "pw"):
+                            ars_case(ctx, ars_reg_fields(car, {k: place(tok, ARS_BODY[k], where).encode("utf-8")}, f"{k}:{name}@{where}"), ae, ad, "special")
+                            ctx.count("special:ars-factorial")
 
 
 ILL_FORMED = ["c080", "c1bf", "e08080", "eda080", "edbfbf", "edafbfedbfbf", "f0808080", "f4908080", "f8888080", "c2", "e282", "f09f98",
@@ -1121,7 +1193,23 @@ def run(ctx):
         "~15 % of the cases leave the property's range on purpose (sequence number >= 128 or missing, missing text, 256+ octet "
         "fields, second header without / with a foreign context, refresh time 0 or > 127) and only feed the correspondence; "
         "every serialisation is parsed back, and mutated serialisations (truncated, octet replaced, length prefix changed, "
-        "octets appended, random) go through both parsers. A case is distinct by its full field tuple / byte string."
+        "octets appended, random) go through both parsers. "
+        "Text-like fields (TMS text, TMS address, ARS device / user identifier and password) additionally get a dictionary of "
+        "special tokens (line breaks CR LF / LF CR / CR / LF / NEL / LS / PS, byte-order marks and non-characters U+FEFF U+FFFE "
+        "U+FFFF U+FFFD, NUL runs and padding, every C0 control, C1 controls, every Unicode blank and invisible format "
+        "character, combining marks and characters that change under NFC / NFKC / case mapping, non-BMP characters, lone "
+        "surrogates (octet-typed fields only), escape / format directives, numeric- and keyword-looking values, protocol "
+        "constants as characters or octets: CSBK trailer 10 80 in both byte orders, optional-header and first-header octets, "
+        "length-value and whole-PDU look-alikes, tokens of another encoding than the field's) at 10 placements (alone, doubled, "
+        "start, start doubled, middle, middle doubled, end, end doubled, both ends, as separator) x every encoding x two fixed "
+        "and one random carrier message x each field and all fields at once; random token pairs; every single character as "
+        "first and as last character (quick: the blocks that hold special characters + 1024 random, thorough: every UCS-2 "
+        "code unit / BMP scalar value + 4096 others); maximal-length values made of multi-byte characters (253..258 octets, "
+        "199..202 UCS-2 units), every text length 0..202, 255-octet addresses of constants, three-field sums around 256 "
+        "octets; 25 % of the random texts / identifiers are decorated with random tokens; hand-made wire images with "
+        "ill-formed / boundary UTF-8 in each ARS field and TMS texts without optional header / with surplus octets feed the "
+        "correspondence only. Every generated octet string goes through the oracle and through the model (as_bytes and "
+        "from_bytes lines). A case is distinct by its full field tuple / byte string."
     )
     ctx.trusted_base += [
         "Lean 4.33 kernel",
@@ -1150,6 +1238,9 @@ def run(ctx):
     special_tokens(ctx, rng, (te, td, ae, ad, misc))
     special_lengths(ctx, rng, (te, td, ae, ad, misc))
     special_wire(ctx, (te, td, ae, ad, misc))
+    special_single_chars(ctx, rng, (te, td, ae, ad, misc))
+    if ctx.thorough():
+        special_factorial(ctx, (te, td, ae, ad, misc))
     utf8_probe(ctx, rng, misc, ctx.budget(2000, 40000))
     n = ctx.budget(5000, 200000)
     for i in range(n):
